@@ -213,10 +213,9 @@ func c18PanicSources(c *Ctx, rule string) {
 						if len(as.Rhs) == 1 {
 							if mk, isMk := ast.Unparen(as.Rhs[0]).(*ast.CallExpr); isMk && len(mk.Args) >= 2 {
 								if fid, isF := mk.Fun.(*ast.Ident); isF && fid.Name == "make" {
-									if lv := f.constOf(mk.Args[1]); lv != nil {
-										a, ok1 := constantInt(lv)
-										b, ok2 := constantInt(cv)
-										if ok1 && ok2 && b < a {
+									// the length is a constant, or a constant plus lengths (header + len(payload))
+									if a, ok1 := minLenOf(f, mk.Args[1]); ok1 {
+										if b, ok2 := constantInt(cv); ok2 && b < a {
 											made = true
 										}
 									}
@@ -354,8 +353,33 @@ func sideAccumulators(c *Ctx) (bool, string) {
 	}
 	af := c.W.F("engine.aggregateRows")
 	if af != nil {
+		// a select column has one kind: the arms of other aggregates (a MIN/MAX feature) store into their own columns
+		otherArm := func(n ast.Node) bool {
+			other := false
+			inspectBody(af.Decl.Body, func(y ast.Node) bool {
+				cc, ok := y.(*ast.CaseClause)
+				if !ok || !(cc.Pos() <= n.Pos() && n.End() <= cc.End()) || len(cc.List) == 0 {
+					return true
+				}
+				mine, typed := false, false
+				for _, e := range cc.List {
+					k := exprKey(e)
+					if strings.HasPrefix(k, "sql.") {
+						typed = true
+					}
+					if k == "sql.Average" || k == "sql.Count" {
+						mine = true
+					}
+				}
+				if typed && !mine {
+					other = true
+				}
+				return true
+			})
+			return other
+		}
 		inspectBody(af.Decl.Body, func(x ast.Node) bool {
-			if as, ok := x.(*ast.AssignStmt); ok && len(as.Lhs) == 1 && strings.Contains(exprKey(as.Lhs[0]), ".Vals[") && strings.HasSuffix(exprKey(as.Lhs[0]), "]") {
+			if as, ok := x.(*ast.AssignStmt); ok && len(as.Lhs) == 1 && strings.Contains(exprKey(as.Lhs[0]), ".Vals[") && strings.HasSuffix(exprKey(as.Lhs[0]), "]") && !otherArm(as) {
 				if t := af.TypeOf(as.Rhs[0]); t == nil || typeName(t) != "int64" {
 					okAll = false
 					why = "aggregateRows stores a " + typeName(t) + " into an accumulator column"
@@ -665,6 +689,30 @@ func sideValidateKind(c *Ctx) (bool, string) {
 		return true
 	})
 	if !okAll {
+		// the kind test may compare with a value looked up in a table (fieldKinds[f.DataType]): which kind the
+		// arm of the assertion gets is then a fact about the table, which this side condition does not read
+		soft := true
+		ast.Inspect(f.Decl.Body, func(x ast.Node) bool {
+			ta, ok := x.(*ast.TypeAssertExpr)
+			if !ok || ta.Type == nil {
+				return true
+			}
+			loc, _ := g.Locate(ta)
+			if !dominatedByReturnGuard(f, g, loc, func(cond ast.Expr) bool {
+				be, ok := ast.Unparen(cond).(*ast.BinaryExpr)
+				if !ok || be.Op != token.NEQ || !strings.HasPrefix(exprKey(be.X), "reflect.TypeOf(val).Kind()") {
+					return false
+				}
+				_, isLocal := ast.Unparen(be.Y).(*ast.Ident)
+				return isLocal
+			}) {
+				soft = false
+			}
+			return true
+		})
+		if soft {
+			return false, "UNDECIDED: the kind test of Validate compares with a value taken from a table — "
+		}
 		return false, "an assertion in Validate is not dominated by the kind test"
 	}
 	return true, ""
@@ -1067,4 +1115,28 @@ func excBroken(c *Ctx, rule, key string, pos token.Pos, kind, reason, why string
 		return
 	}
 	c.Fail(rule, key, pos, "%s whose reviewed justification no longer holds: %s — %s", kind, reason, why)
+}
+
+
+// minLenOf: a lower bound of an integer expression built from constants, len(…) calls and +.
+func minLenOf(f *Func, e ast.Expr) (int64, bool) {
+	e = ast.Unparen(f.stripConv(e))
+	if cv := f.constOf(e); cv != nil {
+		return constantInt(cv)
+	}
+	switch x := e.(type) {
+	case *ast.BinaryExpr:
+		if x.Op == token.ADD {
+			a, ok1 := minLenOf(f, x.X)
+			b, ok2 := minLenOf(f, x.Y)
+			return a + b, ok1 && ok2
+		}
+	case *ast.CallExpr:
+		if id, ok := x.Fun.(*ast.Ident); ok && (id.Name == "len" || id.Name == "cap") {
+			if _, isB := f.ObjOf(id).(*types.Builtin); isB {
+				return 0, true
+			}
+		}
+	}
+	return 0, false
 }
